@@ -138,6 +138,10 @@ func NewSortValue(val value.Primary, flags *option.Flags) *SortValue {
 		sortValue.Datetime = t.UnixNano()
 		sortValue.datetimeSec = t.Unix()
 		sortValue.datetimeNsec = t.Nanosecond()
+		if s, ok := val.(*value.String); ok {
+			// a text that reads as a datetime is still ordered as a text among other texts
+			sortValue.String = strings.ToUpper(option.TrimSpace(s.Raw()))
+		}
 		value.Discard(dt)
 	} else if b := value.ToBoolean(val); !value.IsNull(b) {
 		sortValue.Type = BooleanType
@@ -191,7 +195,7 @@ func (v *SortValue) Less(compareValue *SortValue) ternary.Value {
 			return ternary.ConvertFromBool(v.Float < compareValue.Float)
 		case StringType:
 			return ternary.ConvertFromBool(v.String < compareValue.String)
-		case BooleanType:
+		case BooleanType, DatetimeType:
 			return v.lessAsText(compareValue)
 		}
 	case FloatType:
@@ -217,7 +221,7 @@ func (v *SortValue) Less(compareValue *SortValue) ternary.Value {
 			return ternary.ConvertFromBool(v.Float < compareValue.Float)
 		case StringType:
 			return ternary.ConvertFromBool(v.String < compareValue.String)
-		case BooleanType:
+		case BooleanType, DatetimeType:
 			return v.lessAsText(compareValue)
 		}
 	case DatetimeType:
@@ -230,6 +234,8 @@ func (v *SortValue) Less(compareValue *SortValue) ternary.Value {
 				return ternary.ConvertFromBool(v.datetimeSec < compareValue.datetimeSec)
 			}
 			return ternary.ConvertFromBool(v.datetimeNsec < compareValue.datetimeNsec)
+		case IntegerType, FloatType, StringType, BooleanType:
+			return v.lessAsText(compareValue)
 		}
 	case StringType:
 		switch compareValue.Type {
@@ -238,12 +244,12 @@ func (v *SortValue) Less(compareValue *SortValue) ternary.Value {
 				return ternary.UNKNOWN
 			}
 			return ternary.ConvertFromBool(v.String < compareValue.String)
-		case BooleanType:
+		case BooleanType, DatetimeType:
 			return v.lessAsText(compareValue)
 		}
 	case BooleanType:
 		switch compareValue.Type {
-		case IntegerType, FloatType, StringType, BooleanType:
+		case IntegerType, FloatType, StringType, BooleanType, DatetimeType:
 			return v.lessAsText(compareValue)
 		}
 	}
@@ -251,10 +257,14 @@ func (v *SortValue) Less(compareValue *SortValue) ternary.Value {
 	return ternary.UNKNOWN
 }
 
-// lessAsText compares the texts of two values one of which is a text that reads as a boolean. Boolean values that are
-// not texts have no order, and texts that read as the same boolean are equal ("t" = "true").
+// lessAsText compares the texts of two values one of which is a text that reads as a boolean or as a datetime. Boolean
+// and datetime values that are not texts have no order against other types, and texts that read as the same boolean
+// are equal ("t" = "true").
 func (v *SortValue) lessAsText(compareValue *SortValue) ternary.Value {
-	if (v.Type == BooleanType && len(v.String) < 1) || (compareValue.Type == BooleanType && len(compareValue.String) < 1) {
+	noText := func(sv *SortValue) bool {
+		return (sv.Type == BooleanType || sv.Type == DatetimeType) && len(sv.String) < 1
+	}
+	if noText(v) || noText(compareValue) {
 		return ternary.UNKNOWN
 	}
 	if v.String == compareValue.String {
